@@ -143,6 +143,12 @@ impl Array {
     { unimplemented!() }
 }
 
+impl Clone for Variable {
+    /// derived Clone (Arc clones share the payload): the clone is the same value
+    #[verifier::external_body]
+    fn clone(&self) -> (r: Self) ensures r == *self { unimplemented!() }
+}
+
 // enum-as-inner accessors generated on Variable (assumed: Ok(payload) for the matching
 // variant, Err(self) otherwise — that is what enum-as-inner 0.6 generates)
 impl Variable {
@@ -257,6 +263,135 @@ pub open spec fn seq_st(ins: Seq<InstructionWithStr>, s: int, k: int) -> int
         match eval_res(ins[k].instruction, s) {
             Err(e) => eval_st(ins[k].instruction, s),
             Ok(v) => seq_st(ins, eval_st(ins[k].instruction, s), k + 1),
+        }
+    }
+}
+
+impl Interpreter {
+    /// Interpreter::exec — `instructions.iter().map(|i| i.exec(self)).collect()`; assumed to be the
+    /// sequential left-to-right evaluation that stops at the first Err (std contract of
+    /// Iterator::map + collect into Result)
+    #[verifier::external_body]
+    pub fn exec(&mut self, instructions: &[InstructionWithStr]) -> (r: Result<Tup, ExecStop>)
+        ensures
+            (match seq_res(instructions@, old(self).st@, 0, Seq::empty()) {
+                Ok(vs) => r is Ok && r->Ok_0.elems@ == vs,
+                Err(e) => r == Err::<Tup, ExecStop>(e),
+            }),
+            final(self).st@ == seq_st(instructions@, old(self).st@, 0),
+    { unimplemented!() }
+}
+impl Tup {
+    #[verifier::external_body]
+    pub fn last(&self) -> (r: Option<&Variable>)
+        ensures self.elems@.len() == 0 ==> r is None,
+                self.elems@.len() > 0 ==> r == Some(&self.elems@[self.elems@.len() - 1])
+    { unimplemented!() }
+}
+
+impl NativeFn {
+    /// call through the `fn(&mut Interpreter) -> Result<Variable, ExecError>` pointer of Body::Native
+    #[verifier::external_body]
+    pub fn call(&self, interpreter: &mut Interpreter) -> (r: Result<Variable, ExecError>) { unimplemented!() }
+}
+
+// ----- equality on values: `==` in verbatim bodies resolves to PartialEq for Variable, which is
+// proved separately by back end K (C19); here it is an uninterpreted relation -------------------
+pub uninterp spec fn var_eq(a: Variable, b: Variable) -> bool;
+impl vstd::std_specs::cmp::PartialEqSpecImpl for Variable {
+    open spec fn obeys_eq_spec() -> bool { true }
+    open spec fn eq_spec(&self, other: &Variable) -> bool { var_eq(*self, *other) }
+}
+impl PartialEq for Variable {
+    #[verifier::external_body]
+    fn eq(&self, other: &Variable) -> (r: bool) { unimplemented!() }
+}
+
+// ----- match: specification of "first arm, top to bottom, that covers the scrutinee" ---------
+/// value arm: candidates are evaluated top to bottom until the first one equal to the scrutinee
+pub open spec fn cand_res(c: Seq<InstructionWithStr>, v: Variable, s: int, k: int) -> Result<bool, ExecStop>
+    decreases c.len() - k
+{
+    if k < 0 || k >= c.len() { Ok(false) }
+    else {
+        match eval_res(c[k].instruction, s) {
+            Err(e) => Err(e),
+            Ok(mv) => if var_eq(mv, v) { Ok(true) } else { cand_res(c, v, eval_st(c[k].instruction, s), k + 1) },
+        }
+    }
+}
+pub open spec fn cand_st(c: Seq<InstructionWithStr>, v: Variable, s: int, k: int) -> int
+    decreases c.len() - k
+{
+    if k < 0 || k >= c.len() { s }
+    else {
+        match eval_res(c[k].instruction, s) {
+            Err(e) => eval_st(c[k].instruction, s),
+            Ok(mv) => if var_eq(mv, v) { eval_st(c[k].instruction, s) } else { cand_st(c, v, eval_st(c[k].instruction, s), k + 1) },
+        }
+    }
+}
+pub open spec fn arm_covers_res(arm: MatchArm, v: Variable, s: int) -> Result<bool, ExecStop> {
+    match arm {
+        MatchArm::Other(_) => Ok(true),
+        MatchArm::Type { ident, var_type, instruction } => Ok(spec_matches(spec_as_type(v), var_type)),
+        MatchArm::Value(c, _) => cand_res(c@, v, s, 0),
+    }
+}
+pub open spec fn arm_covers_st(arm: MatchArm, v: Variable, s: int) -> int {
+    match arm {
+        MatchArm::Value(c, _) => cand_st(c@, v, s, 0),
+        _ => s,
+    }
+}
+pub open spec fn arm_exec_res(arm: MatchArm, v: Variable, s: int) -> ExecResult {
+    match arm {
+        MatchArm::Type { ident, var_type, instruction } => eval_res(instruction.instruction, st_insert(st_layer(s), ident, v)),
+        MatchArm::Other(i) => eval_res(i.instruction, s),
+        MatchArm::Value(_, i) => eval_res(i.instruction, s),
+    }
+}
+pub open spec fn arm_exec_st(arm: MatchArm, v: Variable, s: int) -> int {
+    match arm {
+        MatchArm::Type { ident, var_type, instruction } => s,
+        MatchArm::Other(i) => eval_st(i.instruction, s),
+        MatchArm::Value(_, i) => eval_st(i.instruction, s),
+    }
+}
+/// some arm at or after k covers v (or evaluating a candidate stops first): the checker's
+/// `is_covering_type` guarantee, which is type-level and NOT proved here
+pub open spec fn match_decided(arms: Seq<MatchArm>, v: Variable, s: int, k: int) -> bool
+    decreases arms.len() - k
+{
+    if k < 0 || k >= arms.len() { false }
+    else {
+        match arm_covers_res(arms[k], v, s) {
+            Err(e) => true,
+            Ok(b) => b || match_decided(arms, v, arm_covers_st(arms[k], v, s), k + 1),
+        }
+    }
+}
+pub open spec fn match_res(arms: Seq<MatchArm>, v: Variable, s: int, k: int) -> ExecResult
+    decreases arms.len() - k
+{
+    if k < 0 || k >= arms.len() { Ok(Variable::Void) }
+    else {
+        match arm_covers_res(arms[k], v, s) {
+            Err(e) => Err(e),
+            Ok(b) => if b { arm_exec_res(arms[k], v, arm_covers_st(arms[k], v, s)) }
+                     else { match_res(arms, v, arm_covers_st(arms[k], v, s), k + 1) },
+        }
+    }
+}
+pub open spec fn match_st(arms: Seq<MatchArm>, v: Variable, s: int, k: int) -> int
+    decreases arms.len() - k
+{
+    if k < 0 || k >= arms.len() { s }
+    else {
+        match arm_covers_res(arms[k], v, s) {
+            Err(e) => arm_covers_st(arms[k], v, s),
+            Ok(b) => if b { arm_exec_st(arms[k], v, arm_covers_st(arms[k], v, s)) }
+                     else { match_st(arms, v, arm_covers_st(arms[k], v, s), k + 1) },
         }
     }
 }
